@@ -1,6 +1,7 @@
 //! vpcheck: bounded exhaustive checks of the wow_srp properties. See /verif/DESIGN.md.
 
 mod bench;
+mod c02;
 mod c03_extra;
 mod c04;
 mod c05;
@@ -56,6 +57,7 @@ fn main() {
             let seed: u64 = std::env::var("VERIF_SEED").ok().and_then(|s| s.parse().ok()).unwrap_or(0);
             let code = match args[2].as_str() {
                 "C01" => logins::run(logins::Oracle::C01, tier, seed),
+                "C02" => c02::run(tier, seed),
                 "C03" => logins::run(logins::Oracle::C03, tier, seed),
                 "C04" => c04::run(tier, seed),
                 "C05" => c05::run(tier, seed),
